@@ -62,19 +62,12 @@ N.update({
  "C05-m3": "ByteSliceToByteArray fast path no longer re-checks the real size: estimate low by more than 1.5x -> single root data slab far beyond 1.5x the slab size",
  "C05-m4": "ArrayMetaDataSlab.Set repairs an underflowing child only if it is a data slab: >=3-level array, second-level index slab at its minimum child count, shrinking Set that makes a leaf merge",
  "C11-m3": "two cooperating edits: wrapped standalone child keeps its index entry after detach AND the array parent updater trusts the index map: stale handle shrinks the detached child -> overwrites whatever sits at the old index",
- "C12-m3": "see notes.md (collision group handling)",
- "C14-m3": "sequential commit helper (order-relaxed commit with <2 modified slabs) swallows a failed Store (shadowed err)",
- "C14-m4": "order-relaxed commit drops deletion tombstones from the write set before the ledger deletes are issued: any early return forgets the remaining deletions",
  "C15-m3": "RetrieveIfLoaded treats a pending removal as 'no delta' and falls through to the read cache: committed+cached slab, Remove without commit, RetrieveIfLoaded",
  "C15-m4": "sequential commit path keeps an existing cache entry instead of the committed slab: older version cached, a different slab object stored under the same id, order-relaxed commit with <2 modified slabs",
  "C16-m3": "failed MAP-slab encode returns the pooled buffer dirty (element not first in the slab fails): another storage's next encode is corrupted",
- "C16-m4": "BatchPreload (parallel path) replaces a non-empty read cache smaller than the batch: preload in several batches / after earlier reads forgets cached slabs",
- "C17-m3": "inline collision group declared copyable when it holds no slab reference: single-slab map whose inline collision group contains an INLINED nested container -> copy offered, then fails",
  "C18-m3": "SlabIDStorable.StoredValue checks !found before err: a failing ledger read of a referenced slab (large value, standalone child, externalised key) is reported as fatal slab-not-found",
  "C19-m3": "type-info reference index converted to int before the bounds check: 8-byte index with the top bit set (d8 f6 1b 80 ..) -> negative index panic",
  "C19-m4": "v1 map index slab: minimum-length check moved before the extra data: root map index register truncated inside the 10-byte address/count prefix",
- "C20-m3": "leaf-to-root walk stops at already visited ancestors before the owner comparison: foreign-owned child under a parent that has other children visited first",
- "C20-m4": "GetAllChildReferences reuses one slice for the next BFS level: >=3 levels below the slab with multi-slab children -> references dropped",
 })
 
 for id_, txt in N.items():
